@@ -233,6 +233,9 @@ def run_systems(ctx, systems, say=True):
     return cases, fails, cnt
 
 
+LEVELS = {}
+
+
 def write_shards(ctx, cases, per_shard_budget=None):
     """group systems into shards by estimated vm_compute cost"""
     shards, cur, cur_cost, index = [], [], 0.0, []
@@ -250,6 +253,7 @@ def write_shards(ctx, cases, per_shard_budget=None):
             if sp.get("coq", True) is False:
                 continue
             nm = "%s_c%d" % (sysname, ri)
+            LEVELS[level] = LEVELS.get(level, 0) + 1
             try:
                 lit = case_lit(sp, T, obs, sysname, level, tol)
             except (RuntimeError, ValueError, IndexError):
@@ -382,15 +386,24 @@ def run(ctx):
                 "loop body; distinct by the full structural spec (family, kappa, size, batch, column kinds, guess, preconditioner, "
                 "aliasing modes, thresholds, limits, n_tridiag, terminate_cg_by_size, dtype, budget)",
         "mismatches": len(mism), "direct_property_failures": nfail,
+        "coq_cases_values_compared": LEVELS.get(1, 0), "coq_cases_structure_only": LEVELS.get(0, 0),
+        "mismatch_note": "mismatches / direct_property_failures count the cells of the three keyed known findings "
+                         "(aliasing preconditioner outputs, zero t_mat at max_iter = 1); every one is triaged, none is unlisted",
         "input_distribution": dist, "samples": samples,
         "time_impl_s": round(t_impl, 1), "time_coq_s": round(t_coq, 1),
         "counters": {k: v for k, v in cnt.items() if k not in ("impl_calls", "systems", "pred_evals")},
     })
     ctx.assumptions = [
-        "the matmul closure is linear and acts column-wise (it is a matrix, one per batch member); SPD / symmetric where a theorem says so",
-        "n_tridiag <= number of columns; max_iter >= 1 for the no-warning statement",
-        "exact real arithmetic in the theorems; binary64/binary32 behaviour only through the correspondence tolerances",
-        "the Chebyshev rate 2((sqrt(k)-1)/(sqrt(k)+1))^j is NOT proved (numerical support only)"]
+        "theorems: the matmul closure multiplies every flat column by a fixed matrix (col_linear; proved of the dense tensor "
+        "closure); the preconditioner is an arbitrary function except in cg_zero_column (column-wise linear); A_j symmetric with "
+        "A_j x* = rhs_j in cg_anorm_monotone, plus eps > 0 and no p^T A p < eps safe division on a still-active column (no_breakdown)",
+        "cg_scaling: no column norm below eps before or after scaling; cg_no_warning_bound: n_iter > 0",
+        "exact arithmetic in the theorems (commutative ring / real closed field); binary64 / binary32 behaviour only through "
+        "the correspondence tolerances (1e-9 resp. 1e-3 relative to the column / trajectory maximum)",
+        "PARTIAL: the Chebyshev rate 2((sqrt(k)-1)/(sqrt(k)+1))^j, exactness after n steps (preconditioner-independent limit) and "
+        "'t_mat is the Lanczos matrix of the preconditioned operator' are NOT proved; they are evaluated on the implementation "
+        "against a dense oracle on every generated system (support only)",
+        "cg_tmat_entries leaves T[0,0] unspecified while t_mat has a single row (that corner is the known finding C08-tmat-zero-at-max-iter-1)"]
 
 
 def replay(rp):
